@@ -462,6 +462,72 @@ func TestVerifC19Pinned(t *testing.T) {
 			t.Fatalf("%s", strings.Join(*vios, "\n"))
 		}
 	})
+	t.Run("used-resource-replaced-while-reconcile-in-flight", func(t *testing.T) {
+		// Raised by TestVerifC19Machine at seed 1 and judged an over-demand of the
+		// oracle, not a defect. The deletion of the used resource was accepted before
+		// any Usage protected it (it is Terminating, held by a finalizer of its own
+		// controller). A Usage of it is then created; its reconcile marks the
+		// Terminating object and is parked before API call k (all k); meanwhile the
+		// finalizer is dropped (the object goes away) and a new object of the same
+		// name is created; the reconcile resumes and stores Ready=True. The marker
+		// WAS put on the used resource before Ready; no delete request was accepted
+		// while a Ready Usage protected the object; the new incarnation is unprotected
+		// until the next poll exactly as in the sequential variant (object replaced
+		// after Ready), which the oracle classifies as in-between. Neither variant
+		// may be reported, and both must be classified the same way.
+		held := thing(idents[2], "v1")
+		verifsim.Meta(held)["finalizers"] = []any{"example.org/hold"}
+		us := usageSpec{Name: "u2", APIVer: "v1beta1", Of: resRef{ID: 2, Ver: "v1", ByName: true}, Reason: true}
+		replace := func(w *world) {
+			c := w.sim.Client("provider")
+			o := verifsim.U(w.sim.Get(idents[2].key()))
+			o.SetFinalizers(nil)
+			if err := c.Update(context.Background(), o); err != nil {
+				w.fail("drop finalizer: %v", err)
+			}
+			if w.sim.Get(idents[2].key()) != nil {
+				w.fail("harness: the terminating resource should be gone")
+			}
+			w.mustCreate(thing(idents[2], "v1"))
+		}
+		sawInFlight := false
+		for k := -1; k < 10; k++ { // k == -1: the sequential variant (replaced after Ready)
+			rec.Eval()
+			w, vios := collectingWorld(rec)
+			w.mustCreate(held)
+			if out := w.checkedDelete("user", idents[2].key(), "v1", nil); out.refused || !verifsim.Terminating(w.sim.Get(idents[2].key())) {
+				t.Fatalf("harness: setup delete %+v", out)
+			}
+			w.mustCreate(w.renderUsage(us))
+			parked := false
+			if k < 0 {
+				w.reconcile("u2", nil)
+				replace(w)
+			} else if _, parked = w.reconcilePaused("u2", k, func() { replace(w) }); !parked {
+				break
+			}
+			u := w.sim.Get(usageKey("u2"))
+			r := w.sim.Get(idents[2].key())
+			if isReady(u) && !w.markerPresent(r) {
+				if k >= 0 {
+					sawInFlight = true
+				}
+				// The new incarnation is "in between": either outcome of a DELETE is acceptable.
+				prot, _, _ := w.usagesOf(idents[2].key(), verifsim.MetaString(r, "uid"))
+				if len(prot) != 0 {
+					t.Fatalf("k=%d: the model counts the new incarnation as protected by %v", k, prot)
+				}
+				w.checkedDelete("user", idents[2].key(), "v1", nil)
+			}
+			if len(*vios) > 0 {
+				t.Fatalf("k=%d: %s", k, strings.Join(*vios, "\n"))
+			}
+			rec.NonTrivial(fmt.Sprintf("replaced-k%d", k), func() any { return w.hist })
+		}
+		if !sawInFlight {
+			t.Fatalf("harness: no park point reproduced the in-flight replacement (Ready stored while the new incarnation is unmarked)")
+		}
+	})
 }
 
 // TestVerifC19KnownLabelRemovalRace is the pinned reproducer of the known
